@@ -284,8 +284,9 @@ def r2(ctx):
         for (hk, hq), right in want.items():
             def decide(c_, vals, hk=hk, hq=hq):
                 cn = norm(c_)
-                if cn[0] == 'call' and cn[1] == 'core::str::<impl str>::contains' and cn[2][1][0] == 'str':
-                    lit = cn[2][1][1]
+                if cn[0] == 'call' and cn[1] == 'core::str::<impl str>::contains' and \
+                        (cn[2][1][0] == 'str' or (cn[2][1][0] == 'int' and len(cn[2][1]) > 2 and cn[2][1][2] == 'char')):
+                    lit = cn[2][1][1] if cn[2][1][0] == 'str' else chr(cn[2][1][1])       # contains("K") or contains('K')
                     if lit == k:
                         return as_bool(hk, vals)
                     if lit == q:
@@ -364,8 +365,14 @@ def r3(ctx):
         ctx.ok(R, "writer spine after the placement: ' ', side, White rights, Black rights, ['-'], ' ', ep|'-', ' 0 1'", where(s.body))
     else:
         ctx.violation(R, DISP + ':spine', 'FEN fields are written as %s' % spine, where(s.body))
+    # writes that happen inside a crate helper handed the formatter (`fn flush_empties(f, &mut count)`) are not in this body
+    fmt_helpers = sorted({c['callee'] for c in s.calls if c['callee'] in ctx.facts().bodies and '::{closure' not in c['callee'] and
+                          any('Formatter' in str(t_) for t_ in (ctx.facts().fns.get(c['callee']) or {}).get('inputs', [])) and
+                          c['callee'] != DISP and not c['callee'].endswith('::to_string')})
     if sorted(set(loop_parts)) == sorted({'<count>', '<piece>', '/'}):
         ctx.ok(R, "placement loops write digit runs, piece letters and '/' only", where(s.body))
+    elif fmt_helpers:
+        ctx.inconclusive(R, 'part of the placement field is written by the helper %s, which this rule does not follow' % fmt_helpers[0])
     else:
         ctx.violation(R, DISP + ':placement-parts', 'placement loops write %s' % sorted(set(loop_parts)), where(s.body))
     # loop structure: ranks reversed (8..1) outside, files a..h inside; '/' unless the rank is First; '-' iff both NoRights
@@ -384,8 +391,11 @@ def r3(ctx):
         isrc = norm(i['source'])
         fwd = isrc[0] == 'call' and isrc[1] == 'core::slice::<impl [T]>::iter'
         ok = rev and nested and fwd
+    index_loop = any(norm(l['source'])[0] == 'agg' and 'Range' in str(norm(l['source'])[1]) for l in loops if l['source'] is not None)
     if ok:
         ctx.ok(R, 'placement order: ranks 8..1 (ALL_RANKS reversed) outside, files a..h (ALL_FILES) inside', where(s.body))
+    elif index_loop:
+        ctx.inconclusive(R, 'the ranks / files are visited by index arithmetic (`for i in 0..n` with `ALL_RANKS[n - 1 - i]`): the order is not analysed')
     else:
         ctx.violation(R, DISP + ':placement-order', 'placement loops are %s' % srcs, where(s.body))
     # piece argument comes from the slot of make_square(rank, file)
@@ -399,6 +409,8 @@ def r3(ctx):
                 pay = ('field', ('variant', slot, 'Some'), '0')
                 if match(('field', pay, '0'), a[2][0]) is not None and match(('field', pay, '1'), a[2][1]) is not None:
                     ctx.ok(R, 'piece letter is taken from pieces[make_square(rank, file)] (piece, colour) of the loop square', where(s.body, c['line']))
+                elif index_loop:
+                    pass        # the loop square is computed by index arithmetic: reported as not analysed above
                 else:
                     ctx.violation(R, DISP + ':slot', 'piece letter argument is %s' % sh(a, 300), where(s.body, c['line']))
     # the castling '-' is written iff neither side has rights
@@ -632,3 +644,9 @@ def run(ctx):
     r3(ctx)
     r4(ctx)
     r7(ctx)
+    # R8 CACHES-AGREE (= C03.R2/R3): "parsing gives back a position EQUAL to the original" compares checkers and pinned too:
+    # the from-scratch routine the parser ends with and the incremental copies in make_move* must compute the same sets
+    from . import c03
+    sub = Sub(ctx, {'C03.R2': 'C06.R8', 'C03.R3': 'C06.R8'})
+    rec = c03.r2(sub)
+    c03.r3(sub, rec)
